@@ -165,6 +165,19 @@ theorem C11_dp_lit_verdict (pre : List CEvent) (o : List Bool) (k : LitKind)
       if litOk k (crun CSt.init pre).buf then .ok else .computed :=
   lit_verdict _ o k hclean hh
 
+/-- the automaton's own refusals, read from the TABLES: after any prefix without recorded error, a start tag without an entry in the
+    row of the current state (`lookup = none`; every unknown element name is one) has verdict `struct` whatever its attributes and
+    oracle bits; text that is not blank where the state's character-data handler is `white_spaces` has verdict `struct`; blank text
+    there and any text in a state that pools it (`add_text`) is `ok` -/
+theorem C11_dp_struct_verdict (pre : List CEvent) (hclean : (crun CSt.init pre).st.err = none) :
+    (∀ t ae o, lookup (crun CSt.init pre).st.state t = none → verdict (crun CSt.init pre) (.start t ae o) = .struct) ∧
+    (∀ x o, dataH (crun CSt.init pre).st.state = .h_white_spaces → isBlank x = false →
+      verdict (crun CSt.init pre) (.text x o) = .struct) ∧
+    (∀ x o, ((dataH (crun CSt.init pre).st.state = .h_white_spaces ∧ isBlank x = true) ∨
+        dataH (crun CSt.init pre).st.state = .h_add_text) → verdict (crun CSt.init pre) (.text x o) = .ok) :=
+  ⟨fun t ae o h => verdict_no_entry _ t ae o hclean h, fun x o h hx => verdict_text_between _ x o hclean h hx,
+   fun x o h => verdict_text_ok _ x o hclean h⟩
+
 /-! ### non-vacuity -/
 
 open Gama.DP.Ex
@@ -240,6 +253,16 @@ example :
     isLitField (cEndProg (etag (crun CSt.init (pt "50-30-00x" false)).st.state)) = some .deg2gon ∧
     litOk .deg2gon (crun CSt.init (pt "50-30-00x" false)).buf = false ∧ litOk .deg2gon " 50-30-00".toList = true ∧
     verdicts CSt.init (pt "50-30-00" true) = List.replicate 5 .ok ++ [.oracle] := by
+  decide +kernel
+
+/-- hypotheses of `C11_dp_struct_verdict` on concrete prefixes: inside `<g3-model>` there is no entry for `<dx>` nor for an unknown
+    name, and text there is handled by `white_spaces`; inside `<apriori-standard-deviation>` text is pooled -/
+example :
+    let pre : List CEvent := [.start .t_gama_data true [], .start .t_g3_model true []]
+    (crun CSt.init pre).st.err = none ∧ lookup (crun CSt.init pre).st.state .t_dx = none ∧
+    lookup (crun CSt.init pre).st.state .t_unknown = none ∧ dataH (crun CSt.init pre).st.state = .h_white_spaces ∧
+    isBlank "x".toList = false ∧
+    dataH (crun CSt.init (pre ++ [.start .t_constants true [], .start .t_apriori_sd true []])).st.state = .h_add_text := by
   decide +kernel
 
 /-- the elements guarded by a recogniser on this tree: 2 with `deg2gon` (`<b>`, `<l>`), 50 with `IsFloat`, 8 with `IsInteger` -/
